@@ -11,7 +11,8 @@ fixed_lines = 1
 link_extra = ("-Wl,--wrap=malloc", "-Wl,--wrap=free")
 rule = ("scripts = 'i reset' followed by identifier ops (new <size> | alloc <len> | node <len> | set k <hex|rep:hh:n|null> [len] | "
         "copy k <j|null> | cmp k <bytes> [len] | ineq k j | free k | tinit <j|null> | tfini k | setself k off len (name inside the "
-        "identifier's own content) | locate k pos name / next k name (mpt_node_locate/mpt_node_next over the list of node identifiers)); "
+        "identifier's own content) | sinit / ninit (static initialisers MPT_IDENTIFIER_INIT / MPT_NODE_INIT in exact-size blocks) | setfail k name [len] "
+        "(set while malloc fails) | locate k pos name / next k name (mpt_node_locate/mpt_node_next over the list of node identifiers)); "
         "second part: the C++ class mpt::identifier (xi new/copyctor/set/assign/equal/name/free) and the item containers built on it "
         "(xi gappend j = item_group::append(const identifier *, metatype *), xi aappend name [len] = item_array::append: the stored "
         "item's identifier becomes a new slot and is read back; names with zero bytes inside/at the end and zero-filled charset-0 content); stream 1 = every triple "
@@ -22,7 +23,7 @@ rule = ("scripts = 'i reset' followed by identifier ops (new <size> | alloc <len
         "non-trivial = an identifier switched between inline and allocated content (either direction) in the code's output, "
         "per distinct script")
 assumptions = [
-    "malloc never fails in the harness runs; identifier storage is at least sizeof(struct identifier) = 16 bytes (LP64) and is released by the harness after mpt_identifier_set(id,0,0) (what the C++ destructor and mpt_node_destroy do)",
+    "malloc fails only where the op setfail says so (mpt_identifier_set); identifier storage is at least sizeof(struct identifier) = 16 bytes (LP64) and is released by the harness after mpt_identifier_set(id,0,0) (what the C++ destructor and mpt_node_destroy do)",
     "the caller's name buffer holds at least len bytes (and a terminating zero for len = -1)",
     "leaks are observed by wrapping malloc/free at link time and attributing library allocations to the identifier operated on; memory errors by ASan/UBSan",
     "mpt_identifier_compare with a zero name pointer is outside the property (the spec accepts any verdict there)",
@@ -246,6 +247,19 @@ class _XX:
                              "xi copyctor 1", "xi gappend 2", "xi free 1", "xi free 0", "xi free 3", "xi free 2"]))
         out.append(("xx:group:refused", ["xi reset", "xi aappend rep:61:65535", "xi aappend rep:61:65534", "xi aappend rep:61:70000", "xi aappend null 3",
                                          "xi gappend 0", "xi gappend 5", "xi gappend", "xi free 0", "xi free 1", "xi aappend - 0", "xi free 2"]))
+        # stand-alone item<T>: default and copy construction, assignment in every combination, names around the inline
+        # limits of the 16-byte base (12) and of the item (20)
+        for a in (0, 5, 11, 12, 13, 17, 19, 20, 21, 40):
+            for b in (0, 11, 12, 13, 18, 19, 20, 21, 40):
+                out.append(("xx:item:%d:%d" % (a, b),
+                            ["xi reset", "xi inew", "xi inew", "xi set 1 %s" % _data(a), "xi icopy 1", "xi set 2 %s" % _data(b, 0x41), "xi iassign 0 2", "xi name 0",
+                             "xi iassign 2 1", "xi name 2", "xi icopy 0", "xi iassign 1 3", "xi iassign 3 3", "xi name 1", "xi set 0 %s" % _data(b, 0x70), "xi iassign 3 0",
+                             "xi name 3", "xi free 0", "xi free 1", "xi free 2", "xi free 3"]))
+        # item names in a group across removals (array compaction): every removal order of up to 3 of 5 items
+        for lens in ("30,1,33,1,16", "20,21,19,12,13", "5,40,5,40,5", "300,0,21,20,3000", "1,2,3,4,5"):
+            for order in itertools.permutations(range(5), 3):
+                out.append(("xx:gclear:%s:%s" % (lens, "".join(map(str, order))), ["xi reset", "xi gclear %s %s" % (lens, ",".join(map(str, order)))]))
+            out.append(("xx:gclear:%s:all" % lens, ["xi reset", "xi gclear %s 0,1,2,3,4" % lens, "xi gclear %s -" % lens, "xi gclear %s 4" % lens, "xi gclear %s 3,4,2,1" % lens]))
         out.append(("xx:badop", ["xi reset", "xi new 15", "xi new 16", "xi copyctor 1", "xi copyctor null", "xi assign 0 null", "xi assign 0 1", "xi name 1",
                                  "xi equal 0 null", "xi set 0 null", "xi frob", "xi free 0", "xi name 0"]))
         r = gen.rng(id, tier, seed, "xx-random")
@@ -307,6 +321,28 @@ class _XX:
 
 
 extra_parts = [_XX]
+
+
+def _static_and_nomem():
+    """identifiers made with the static initialisers (exact-size blocks), and set while malloc fails"""
+    out = []
+    lens = [0, 1, 4, 5, 10, 11, 12, 13, 14, 15, 16, 17, 20, 40]
+    for kind in ("sinit", "ninit"):
+        for a in lens:
+            for b in (0, 11, 12, 13, 16, 40):
+                out.append(("static:%s:%d:%d" % (kind, a, b),
+                            ["i reset", "i " + kind, "i new 16", "i set 0 %s" % _data(a), "i cmp 0 %s" % _data(a), "i set 0 null %d" % b, "i cmp 0 null %d" % b,
+                             "i set 0 %s" % _data(b, 0x62), "i copy 1 0", "i copy 0 1", "i set 0 %s" % _data(a, 0x63), "i ineq 0 1", "i set 0 null 0", "i free 0", "i free 1"]))
+    for size in (16, 32, 64):
+        mx = size - 4
+        for cur in ("-", _data(3), _data(mx - 1), _data(mx + 5), "null 3", "null %d" % (mx + 5)):
+            for req in (_data(mx - 1, 0x62), _data(mx, 0x62), _data(mx + 1, 0x62), _data(300, 0x62), "null %d" % mx, "null %d" % (mx + 1), "null 300",
+                        "null 65535", "rep:62:65534", "rep:62:65535"):
+                probe = cur if not cur.startswith("null") else "null " + cur.split()[1]
+                out.append(("nomem:%d:%s:%s" % (size, cur.replace(" ", "_")[:14], req.replace(" ", "_")[:14]),
+                            ["i reset", "i new %d" % size, "i new %d" % size, "i set 0 " + cur, "i copy 1 0", "i setfail 0 " + req, "i cmp 0 " + probe,
+                             "i ineq 0 1", "i setfail 0 " + req, "i set 0 " + req, "i setfail 0 " + cur, "i ineq 0 1", "i free 0", "i free 1"]))
+    return out
 
 
 def _cmpnull():
@@ -414,6 +450,7 @@ def scripts(tier, seed, scale=1):
                           "i set 0 6162 1", "i free 0", "i set 0 61"]))
     out += _self_and_nodes(tier)
     out += _cmpnull()
+    out += _static_and_nomem()
     out += _random(tier, seed, scale)
     return out
 
